@@ -29,6 +29,15 @@ def log(*a):
 # Lean side
 # ---------------------------------------------------------------------------------------------
 
+PROGRAM_THEOREMS = {
+    "C01": ["accepted_getter"], "C02": ["accepted_setter"], "C03": ["accepted_getter", "accepted_setter", "accepted_oob"],
+    "C04": ["accepted_getter", "accepted_setter", "accepted_wide"], "C05": ["accepted_getter", "accepted_setter"],
+    "C08": ["accepted_getter"], "C11": ["accepted_setter", "accepted_history"],
+    "C12": ["accepted_history", "LegalStep.ok"], "C13": ["accepted_builder", "chainCalls_ok"],
+    "C14": ["accepted_builder", "pieces_disjoint_of_writable", "ranges_disjoint_of_pieces"], "C06": ["expand_inv"], "C16": ["accepted_history_profile_independent", "accepted_oob", "accepted_wide"],
+}
+
+
 def lean_obligations(prop, thorough=False):
     """returns dict(obligations, discharged, theorems[], problems[], checker_cmd)"""
     mod = "BitbybitModel.Props.%s" % prop
@@ -84,6 +93,31 @@ def lean_obligations(prop, thorough=False):
         out["theorems"].append({"name": name, "axioms": axs})
     if out["obligations"] == 0:
         out["problems"].append("no theorems found in namespace %s" % ns)
+    # declaration-level corollaries (Props/Program.lean) that this property also relies on
+    extra = PROGRAM_THEOREMS.get(prop, [])
+    if extra:
+        pm = "BitbybitModel.Props.Program"
+        b = subprocess.run(["lake", "build", pm], cwd=LEAN_DIR, stdout=subprocess.PIPE, stderr=subprocess.STDOUT, text=True)
+        if b.returncode != 0:
+            out["problems"].append("lake build %s failed: %s" % (pm, b.stdout[-1500:]))
+            return out
+        a2 = subprocess.run(["lake", "env", "lean", "--run", "Audit.lean", pm], cwd=LEAN_DIR, stdout=subprocess.PIPE, stderr=subprocess.STDOUT, text=True)
+        seen = {}
+        for line in a2.stdout.splitlines():
+            m = re.match(r"theorem (\S+) axioms=\[(.*)\]", line)
+            if m:
+                seen[m.group(1)] = [x.strip() for x in m.group(2).split(",") if x.strip()]
+        for short in extra:
+            name = "Bb.Prog." + short
+            out["obligations"] += 1
+            if name not in seen:
+                out["problems"].append("theorem %s missing from %s" % (name, pm))
+                continue
+            if set(seen[name]) <= ALLOWED_AXIOMS:
+                out["discharged"] += 1
+            else:
+                out["problems"].append("theorem %s depends on %s" % (name, seen[name]))
+            out["theorems"].append({"name": name, "axioms": seen[name]})
     if thorough:
         lc = subprocess.run(["lake", "env", "leanchecker", mod], cwd=LEAN_DIR, stdout=subprocess.PIPE, stderr=subprocess.STDOUT, text=True)
         out["leanchecker_rc"] = lc.returncode
@@ -255,13 +289,14 @@ def evaluate(prop, res):
                 if len(samples) < 3:
                     samples.append({"declaration": name, "field": fname, "type": render.field_ty_text(fdef), "attr": fdef["attrs"], "op": kind, "inputs": n})
     # mismatches
-    for prof in res["profiles"]:
-        for line in res["mismatches"].get(prof, []):
+    cov["focus_search_ops"] = res.get("focus", {}).get("ops", 0)
+    for prof in list(res["profiles"]) + ["focus"]:
+        for line in (res.get("focus", {}).get("mismatches", []) if prof == "focus" else res["mismatches"].get(prof, [])):
             if line.startswith("bad-op"):
                 opline = line[len("bad-op "):]
-                _, _, ps = op_props(table, opline)
+                bname, _, ps = op_props(table, opline)
                 if prop in ps:
-                    add("correspondence", "driver could not interpret operation", {"line": opline, "profile": prof})
+                    add("correspondence", "driver could not interpret operation", {"line": opline, "profile": prof, "declaration": bname})
                 continue
             m = re.match(r"mismatch (M|S) (.*?) :: (op .*)$", line)
             if not m:
